@@ -44,6 +44,7 @@ func parse(path string) *prog {
 		fail("%v", err)
 	}
 	p := &prog{file: path, labels: map[string]int{}}
+	var order []string // labels in the order they are defined
 	started := false
 	for i, raw := range strings.Split(string(b), "\n") {
 		l := raw
@@ -69,6 +70,7 @@ func parse(path string) *prog {
 				fail("%s:%d: duplicate label %s", path, i+1, m[1])
 			}
 			p.labels[m[1]] = len(p.ins)
+			order = append(order, m[1])
 			continue
 		}
 		f := strings.Fields(l)
@@ -84,6 +86,28 @@ func parse(path string) *prog {
 	}
 	if !started {
 		fail("%s: no TEXT block", path)
+	}
+	// Label NAMES carry no meaning: the walk below speaks of the four labels of the one program shape by the
+	// names the generator gives them; the k-th label defined in the file is taken to be the k-th of these
+	// (a file with another number of labels keeps its names and fails the walk).
+	canon := []string{"blockloop", "tail", "tailloop", "reduce"}
+	if len(order) == len(canon) {
+		ren := map[string]string{}
+		labels := map[string]int{}
+		for k, name := range order {
+			ren[name] = canon[k]
+			labels[canon[k]] = p.labels[name]
+		}
+		p.labels = labels
+		for i := range p.ins {
+			if strings.HasPrefix(p.ins[i].op, "J") { // jumps: the operand is a label
+				for j, a := range p.ins[i].args {
+					if r, ok := ren[a]; ok {
+						p.ins[i].args[j] = r
+					}
+				}
+			}
+		}
 	}
 	return p
 }
